@@ -45,6 +45,7 @@ func genC08(seed uint64, run int, tier string) Scenario {
 		}
 	}
 	long := run%40 == 7
+	manyLate := long && r.IntN(2) == 0 // two dozen calls give up before their replies come
 	if long {
 		// a long session: far more than a hundred requests after an early timeout with a late,
 		// never collected reply (message-ids travel a long way from the stale one)
@@ -60,7 +61,7 @@ func genC08(seed uint64, run int, tier string) Scenario {
 		}
 		if long {
 			mode = "now"
-			if i < 3 && r.IntN(2) == 0 || i == 0 {
+			if i < 3 && r.IntN(2) == 0 || i == 0 || manyLate && i < 24 {
 				mode = "late"
 			}
 		}
@@ -71,7 +72,7 @@ func genC08(seed uint64, run int, tier string) Scenario {
 				startTag += fmt.Sprintf(` xmlns:%s="urn:example:params:xml:ns:yang:%s"`, word(r, lower, 2, 5), word(r, lower+"-", 10, 40))
 			}
 		}
-		rep := peer.NCReply{Mode: mode, Payload: fmt.Sprintf(startTag+` message-id="{MID}"><data><token>reply-%d-%s</token><descr>%s</descr></data></rpc-reply>`, i, word(r, lower, 4, 8), word(r, lower+"  \n", 0, 24))}
+		rep := peer.NCReply{Mode: mode, Payload: fmt.Sprintf(startTag+` message-id="{MID}"><data><token>reply-%d-%s</token><descr>%s</descr>%s</data></rpc-reply>`, i, word(r, lower, 4, 8), word(r, lower+"  \n", 0, 24), pick(r, "", "", "", "<subscription-id>"+word(r, digits, 1, 6)+"</subscription-id>", "<mdt-subscriptions><subscription-id>2147483648</subscription-id></mdt-subscriptions>"))}
 		if mode == "late" {
 			rep.DelayUS = sc.TimeoutOpsUS * int64(between(r, 15, 30)) / 10
 		}
